@@ -47,6 +47,15 @@ def run_sisdr(case, R):
     T, lead = case['T'], tuple(case['lead'])
     s = rng.standard_normal((*lead, T)) * case['scale']
     e = 0.7 * s / case['scale'] + rng.standard_normal((*lead, T)) * 10 ** rng.uniform(-7.5, 1)       # SI-SDR from -20 dB up to ~150 dB
+    if case['rs'][-1] % 4 == 0:
+        # zero padding / a muted segment / a gated estimate: exact zeros in estimate and/or reference (never an all-zero signal)
+        z = rng.uniform(size=T) < rng.choice([0.05, 0.5])
+        z[int(rng.integers(T))] = True; z[int(rng.integers(T))] = False
+        which = int(rng.integers(3))
+        if which in (0, 2):
+            e = e.copy(); e[..., z] = 0
+        if which in (1, 2):
+            s = s.copy(); s[..., np.roll(z, 1)] = 0
     sb, eb = s.copy(), e.copy()
     got = np.asarray(si_sdr(s, e))
     R.check('C19.sisdr', np.array_equal(s, sb) and np.array_equal(e, eb), 'sisdr/purity', 'arguments modified')
@@ -58,6 +67,10 @@ def run_sisdr(case, R):
     amp = 40 * np.finfo(float).eps * 10 ** (float(np.max(ref)) / 20)          # rounding of s_hat - alpha s, amplified at high SI-SDR
     if got.shape != ref.shape:
         R.fail('C19.sisdr', 'sisdr/shape', f'si_sdr of signals {s.shape} has shape {got.shape}, not one value per leading index {ref.shape}', lead=list(lead), T=T)
+        return
+    if not np.isfinite(ref).all():
+        # estimate and reference with disjoint supports: alpha = 0 and the defined value is -inf dB; nothing further to compare
+        R.check('C19.sisdr', np.array_equal(np.isneginf(ref), np.isneginf(got)) and not np.isnan(got).any(), 'sisdr/orthogonal', 'si_sdr of an estimate orthogonal to the reference is not -inf where the definition is')
         return
     dv = float(np.abs(got - ref).max())
     R.check('C19.sisdr', got.shape == ref.shape and dv <= 1e-8 + amp, 'sisdr/value', f'si_sdr deviates from 10 log10(|alpha s|^2/|s_hat - alpha s|^2) by {dv:.3e} dB', dev=dv, lead=list(lead), T=T)
@@ -217,7 +230,7 @@ def run_snr(case, R):
     if case['rs'][-1] % 3 == 0:
         T2 = int(rng.choice([T // 2 + 1, 2 * T, T + 7]))           # target and noise of different lengths (powers are means, not sums)
         Nn = (gen.cnormal(rng, (*lead, T2)) if cplx else rng.standard_normal((*lead, T2))) * 10 ** rng.uniform(-3, 3)
-    snr = float(rng.uniform(-30, 40))
+    snr = float(rng.uniform(-30, 40)) if rng.uniform() < 0.6 else float(rng.integers(-3, 4) * 5)       # dB grids: 0 dB exactly is a request like any other
     Xb, Nb = X.copy(), Nn.copy()
     X2, N2 = set_snr(X, Nn, snr, inplace=False)
     R.check('C19.snr', np.array_equal(X, Xb) and np.array_equal(Nn, Nb), 'snr/purity-not-inplace', 'set_snr(inplace=False) modified its arguments')
